@@ -318,6 +318,7 @@ def _eval_inner(case, c):
         if _stored(pa) != a0 or _stored(pb) != b0:
             c.msgs.append("operator mutated an operand")
         # history: the left operand is edited IN PLACE (poses are arrays) and used again -- no stale intermediate results
+        pa.inverse  # (already evaluated once for the old value)
         np.asarray(pa)[...] = b
         c.phys("after in-place edit: a (+) b", kind, pa + pb, G.compose(kind, b, b), sc2 * 2)
         c.phys("after in-place edit: a^-1", kind, pa.inverse, G.inverse(kind, b), sc2 * 2)
